@@ -60,7 +60,38 @@ fn decorate<'m, 'c, T: Metric + From<String>>(mut b: MetricBuilder<'m, 'c, T>, c
     b.try_send().map(|m| m.as_metric_str().to_string())
 }
 
-pub fn run_case(text: &str) -> Result<Vec<(String, String)>, String> { Ok(check(&Case::parse(text)?)) }
+pub fn run_case(text: &str) -> Result<Vec<(String, String)>, String> {
+    if let Some(v) = text.strip_prefix("disp=") { return Ok(display_case(v)); }
+    let c = Case::parse(text)?;
+    Ok(no_panic(&format!("the metric call of case {}", text), || check(&c)))
+}
+
+/// C20: no call panics. Runs `f`; a panic becomes a C20 failure.
+fn no_panic<F: FnOnce() -> Vec<(String, String)>>(what: &str, f: F) -> Vec<(String, String)> {
+    let prev = std::panic::take_hook();
+    let msg = std::sync::Arc::new(std::sync::Mutex::new(String::new()));
+    let m2 = msg.clone();
+    std::panic::set_hook(Box::new(move |info| { *m2.lock().unwrap() = info.to_string(); }));
+    let r = std::panic::catch_unwind(std::panic::AssertUnwindSafe(f));
+    std::panic::set_hook(prev);
+    match r { Ok(v) => v, Err(_) => vec![("C20".to_string(), format!("{} panicked: {}", what, msg.lock().unwrap().replace('\n', " ")))] }
+}
+
+/// case `disp=<ps|pu|pf><n>`: `to_string()` of a packed MetricValue of n elements (the public
+/// `cadence::ext::MetricValue` can be built by callers directly, empty lists included)
+fn display_case(v: &str) -> Vec<(String, String)> {
+    use cadence::ext::MetricValue;
+    let n: usize = v.get(2..).and_then(|x| x.parse().ok()).unwrap_or(0);
+    let val = match v.get(..2) {
+        Some("ps") => MetricValue::PackedSigned((0..n as i64).map(|i| -i).collect()),
+        Some("pu") => MetricValue::PackedUnsigned((0..n as u64).collect()),
+        _ => MetricValue::PackedFloat((0..n).map(|i| i as f64 + 0.5).collect()),
+    };
+    no_panic(&format!("Display of a packed value of {} element(s)", n), move || {
+        let text = val.to_string();
+        if text.split(':').filter(|x| !x.is_empty()).count() != n { vec![("C01".to_string(), format!("packed value of {} element(s) rendered as {:?}", n, text))] } else { vec![] }
+    })
+}
 
 pub fn check(c: &Case) -> Vec<(String, String)> {
     let (rx, sink) = SpyMetricSink::new();
@@ -142,6 +173,13 @@ pub fn check(c: &Case) -> Vec<(String, String)> {
 
 pub fn search(prop: &str, seed: u64, budget: u64) -> Option<(String, Vec<(String, String)>)> {
     let mut rng = Rng::new(seed);
+    if prop == "C20" || prop == "C01" {
+        for kind in ["ps", "pu", "pf"] { for n in 0..4 {
+            let c = format!("{}{}", kind, n);
+            let f: Vec<(String, String)> = display_case(&c).into_iter().filter(|(p, _)| p == prop).collect();
+            if !f.is_empty() { return Some((format!("disp={}", c), f)); }
+        } }
+    }
     for _ in 0..budget.min(60000) {
         let n = STRS.len() as u64;
         let tag = |rng: &mut Rng| (if rng.below(2) == 0 { None } else { Some(rng.below(n) as usize) }, rng.below(n) as usize);
@@ -151,7 +189,7 @@ pub fn search(prop: &str, seed: u64, budget: u64) -> Option<(String, Vec<(String
         let c = Case { p: rng.below(n) as usize, k: rng.below(n) as usize, kind: rng.below(7) as usize, v: rng.below(6) as usize,
             dt: (0..ndt).map(|_| tag(&mut rng)).collect(), t: (0..nt).map(|_| tag(&mut rng)).collect(),
             dc: o(&mut rng, n), c: o(&mut rng, n), r: o(&mut rng, 4), ts: o(&mut rng, 3) };
-        let fails = check(&c);
+        let fails = no_panic("a metric call", || check(&c));
         if fails.iter().any(|(p, _)| p == prop) {
             return Some((c.to_string(), fails.into_iter().filter(|(p, _)| p == prop).collect()));
         }
